@@ -56,10 +56,9 @@ func runVerify(k *kernel.K) {
 			time.Sleep(time.Duration(1+k.Choose(3, "clock-slots")) * n.slotDuration())
 		}
 		if k.Bool(1, 12, "restart") {
-			n.open(false)
-			synctest.Wait()
+			sc.restart()
 			k.Fault("restart")
-			k.Event("restart", "node reloaded from disk")
+			k.Event("restart", "node reloaded from disk, base chain imported again")
 		}
 		// parent and epoch
 		pi := k.Choose(len(sc.chain), "parent")
@@ -89,6 +88,16 @@ func runVerify(k *kernel.K) {
 			continue
 		}
 		usedSlot[slot]++
+		if !d.noPre && parent.number > 0 {
+			// the block's epoch follows from the slot it claims (a relabelled slot may leave the epoch)
+			if e2 := sc.refEpochOf(parent, d.c.slot); e2 != epoch {
+				if e2 != epoch+1 || int(e2) > maxEpoch || pi < sc.declarer[e2] {
+					k.Probe("claimed-slot-outside-known-epochs")
+					continue
+				}
+				epoch, ep = e2, sc.epochs[e2]
+			}
+		}
 		blk := sc.buildBlock(d)
 		// ---- the independent verdict ----
 		valid, unsure, why := false, false, ""
@@ -484,8 +493,13 @@ func runSlotsViaVerifier(k *kernel.K) {
 			serial++
 			d := &draft{parent: parent, c: c, sealer: ep.keys[c.idx], sealFlip: -1, salt: byte(serial)}
 			hdr = sc.buildBlock(d).hdr
-			log = append(log, sent{hdr: hdr, d: d, slot: slot, author: c.idx})
 			what = "new"
+			for _, e := range log {
+				if e.slot == c.slot && e.author == c.idx {
+					what = "conflicting" // this author already has a block in this slot
+				}
+			}
+			log = append(log, sent{hdr: hdr, d: d, slot: c.slot, author: c.idx})
 		case a <= 4: // the same block again
 			e := log[k.Choose(len(log), "which")]
 			hdr = e.hdr
@@ -511,7 +525,7 @@ func runSlotsViaVerifier(k *kernel.K) {
 			case 1:
 				time.Sleep(time.Duration(2+k.Choose(30, "slots")) * n.slotDuration())
 			default:
-				n.open(false)
+				sc.restart()
 				tap.inner = n.ss
 				k.Fault("restart")
 			}
